@@ -28,7 +28,10 @@ FLOATS32 = [0, 0x3ff8000000000000, 0x7ff0000000000000, 0x47efffffe0000000, 0x36a
 def rt_type(rng, depth, top=False):
     if top or (depth > 0 and rng.chance(0.3)):
         fields = []
-        for name in TG.FIELD_NAMES[:1 + rng.below(4)]:
+        # one struct in eight carries exported names that start with an upper-case letter outside ASCII (unicode.IsUpper /
+        # strings.ToLower: Latin-1, Greek, Cyrillic)
+        names = TG.FIELD_NAMES if not rng.chance(0.125) else rng.shuffle(["\u00c9mile", "\u03a9mega", "\u00d6l", "\u042frus", "A"])
+        for name in names[:1 + rng.below(4)]:
             fty = rt_type(rng, depth - 1)
             tag = ""
             r = rng.below(10)
